@@ -135,7 +135,7 @@ Definition cfg_of (cfgs : list (nat * bool * bool)) (m : mid) : nat * bool * boo
   nth m cfgs (O, false, false).
 Definition init_u (cfgs : list (nat * bool * bool)) : U :=
   init_state 0 (fun m => fst (fst (cfg_of cfgs m))) (fun m => snd (fst (cfg_of cfgs m)))
-             (fun m => snd (cfg_of cfgs m)) (fun _ => O) true.
+             (fun m => snd (cfg_of cfgs m)) (fun _ => O) false.   (* aintr = false: the code as written (CAS arm) *)
 
 Definition c01_run (fuel : nat) (cfgs : list (nat * bool * bool)) (ps : list (list (Prog.op mop))) :=
   Prog.coop_result prim_step ps fuel Prog.VCLOCK_START (init_u cfgs).
